@@ -11,6 +11,7 @@ import pints
 
 from harness.bootstrap import load_chi
 from harness.core import Family
+from harness import forms as F
 from harness import gen_loglik as G
 from harness import toys
 from harness.oracle import densities as D
@@ -123,6 +124,38 @@ def _compare(ctx, case, ll, x, rtol=1e-9, tag='toy'):
     return val
 
 
+def _forms(ctx, rng, case, ll, x, idx):
+    """the same parameter values in another container / dtype"""
+    if any(len(t) == 0 for t in case.times):
+        return
+    if idx % 4 == 0:
+        # an integer-valued point (k is kept small for conditioning)
+        x = F.intify(x)
+        x[case.n_out] = 1.0
+    form = F.pick(rng)
+    xv = F.variant(x, form)
+    if xv is None:
+        return
+    feats = {'input_form': form, 'error_models': case.em_names}
+    try:
+        base = (ll(x.copy()), np.asarray(ll.compute_pointwise_ll(x.copy())),
+                ll.evaluateS1(x.copy()))
+        got = (ll(xv), np.asarray(ll.compute_pointwise_ll(xv)),
+               ll.evaluateS1(xv))
+    except Exception as e:      # noqa
+        ctx.violation_exc('constructed_object_evaluates', e,
+                          {'case': case.describe(), 'x': x, 'form': form},
+                          feats)
+        return
+    ctx.count('input_forms_compared')
+    ref = float(np.real(case.ref_total(x)))
+    if not F.same(got, base) or (np.isfinite(ref) and not ctx.close(
+            got[0], ref, rtol=1e-9, scale=abs(ref) + 10)):
+        ctx.violation('same_numbers_same_result', 'input_form:' + form,
+                      {'float64': base, form: got, 'reference': ref, 'x': x,
+                       'case': case.describe()}, feats)
+
+
 def toy_case(ctx, rng, idx):
     case = G.LLCase(rng)
     ctx.case(case.signature(), case.nontrivial(), sample=case.describe())
@@ -134,6 +167,7 @@ def toy_case(ctx, rng, idx):
     ctx.count('constructed')
     x = case.point(rng)
     val = _compare(ctx, case, ll, x)
+    _forms(ctx, rng, case, ll, x, idx)
     # boundary: a non-positive scale scores -inf (oracle: only "-inf")
     if idx % 7 == 0 and not any(len(t) == 0 for t in case.times):
         xb = x.copy()
